@@ -139,13 +139,54 @@ Proof.
     exists sm2. split; [exact H2|]. lia.
 Qed.
 
+(* the sub-chunker of fix-F-C02f *)
+Lemma nms2_loop_bounds fuel map_ inv cs : forall sm found lo hi,
+  0 <= sm <= len map_ -> (Z.to_nat (len map_ - sm) < fuel)%nat ->
+  exists sm2, nms2_loop fuel map_ sm inv cs found lo hi = Ok sm2 /\ sm <= sm2 <= len map_ /\
+              (sm < len map_ -> found = false -> sm + 1 <= sm2).
+Proof.
+  induction fuel as [|f IH]; intros sm found lo hi Hs Hf; [lia|].
+  cbn [nms2_loop]. destruct (sm <? len map_) eqn:E.
+  - rewrite (getZ_ok 104 map_ sm) by lia. cbn [bind].
+    destruct (nthZ map_ sm =? inv) eqn:Ei; cbn [negb].
+    + destruct (IH (sm + 1) found lo hi) as [s2 [H1 [H2 _]]]; [lia|lia|].
+      exists s2. split; [exact H1|]. split; lia.
+    + destruct found; cbn [negb].
+      * destruct (Z.max hi (nthZ map_ sm) - Z.min lo (nthZ map_ sm) >=? cs) eqn:Ec.
+        -- exists sm. split; [reflexivity|]. split; [lia|]. intros _ Hd. discriminate.
+        -- destruct (IH (sm + 1) true (Z.min lo (nthZ map_ sm)) (Z.max hi (nthZ map_ sm))) as [s2 [H1 [H2 _]]]; [lia|lia|].
+           exists s2. split; [exact H1|]. split; [lia|]. intros _ Hd. discriminate.
+      * destruct (IH (sm + 1) true (nthZ map_ sm) (nthZ map_ sm)) as [s2 [H1 [H2 _]]]; [lia|lia|].
+        exists s2. split; [exact H1|]. split; lia.
+  - exists sm. split; [reflexivity|]. split; lia.
+Qed.
+
+Lemma next_map_subchunk2_progress map_ sm inv cs :
+  0 <= sm < len map_ ->
+  exists nsm, next_map_subchunk2 map_ sm inv cs = Ok nsm /\ sm < nsm <= len map_.
+Proof.
+  intros Hs. unfold next_map_subchunk2.
+  assert (Hlen : len map_ = Z.of_nat (length map_)) by reflexivity.
+  destruct (nms2_loop_bounds (S (length map_)) map_ inv cs sm false inv inv) as [nsm [H1 [B1 P1]]]; [lia|lia|].
+  exists nsm. split; [exact H1|]. specialize (P1 ltac:(lia) eq_refl). lia.
+Qed.
+
+Lemma next_map_subchunk_v_progress ver map_ sm inv cs :
+  0 <= sm < len map_ -> 1 <= cs ->
+  exists nsm, next_map_subchunk_v ver map_ sm inv cs = Ok nsm /\ sm < nsm <= len map_.
+Proof.
+  intros Hs Hcs. unfold next_map_subchunk_v. destruct (span_kernels ver).
+  - apply next_map_subchunk2_progress. exact Hs.
+  - apply next_map_subchunk_progress; assumption.
+Qed.
+
 Lemma subchunks_loop_chain fuel ver map_ inv cs sm :
   0 <= sm <= len map_ -> 1 <= cs -> (Z.to_nat (len map_ - sm) < fuel)%nat ->
   exists subs, subchunks_loop fuel ver map_ inv cs sm = Ok subs /\ chain subs sm (len map_).
 Proof.
   revert sm. induction fuel as [|f IH]; intros sm Hs Hcs Hf; [lia|].
   cbn [subchunks_loop]. destruct (sm <? len map_) eqn:E.
-  - destruct (next_map_subchunk_progress map_ sm (match ver with Orig => -1 | Fixed => inv end) cs)
+  - destruct (next_map_subchunk_v_progress ver map_ sm (match ver with Orig => -1 | _ => inv end) cs)
       as [nsm [H1 B1]]; [lia|lia|].
     rewrite H1. cbn [bind].
     destruct (IH nsm) as [rest [H2 C2]]; [lia|lia|lia|].
@@ -222,6 +263,71 @@ Proof.
     + exfalso. apply Hne. apply Ha2. lia.
     + exists i0, j0. replace (e - 1 + 1) with e in * by lia.
       repeat split; try lia; try assumption. rewrite Hr2. reflexivity.
+Qed.
+
+(* ---------- get_valid_value_extents after fix-F-C02f: min / max of the valid entries ---------- *)
+Definition ext_state (chunk:list Z) (inv s i first last:Z) : Prop :=
+  (first = inv /\ last = inv /\ all_inv chunk inv s i) \/
+  (exists i0 j0, s <= i0 < i /\ s <= j0 < i /\ nthZ chunk i0 = first /\ nthZ chunk j0 = last /\
+     first <> inv /\ last <> inv /\
+     forall t, s <= t < i -> nthZ chunk t <> inv -> first <= nthZ chunk t <= last).
+
+Lemma gve2_loop_spec chunk inv s n : forall i first last,
+  0 <= s -> s <= i -> i + Z.of_nat n <= len chunk -> ext_state chunk inv s i first last ->
+  exists f l, gve2_loop n chunk i inv first last = Ok (f, l) /\ ext_state chunk inv s (i + Z.of_nat n) f l.
+Proof.
+  induction n as [|n IH]; intros i first last Hs Hi Hn St.
+  - exists first, last. split; [reflexivity|]. replace (i + Z.of_nat 0) with i by lia. exact St.
+  - cbn [gve2_loop]. rewrite (getZ_ok 113 chunk i) by lia. cbn [bind].
+    replace (i + Z.of_nat (S n)) with (i + 1 + Z.of_nat n) by lia.
+    destruct (nthZ chunk i =? inv) eqn:Ei; cbn [negb].
+    + apply IH; try lia.
+      destruct St as [[H1 [H2 Ha]]|[i0 [j0 [B1 [B2 [E1 [E2 [N1 [N2 Hb]]]]]]]]].
+      * left. split; [exact H1|]. split; [exact H2|].
+        intros t Ht. destruct (Z.eq_dec t i) as [->|]; [lia|]. apply Ha. lia.
+      * right. exists i0, j0. repeat split; try lia; try assumption;
+          (destruct (Z.eq_dec t i) as [->|]; [lia|]; apply Hb; [lia|assumption]).
+    + destruct St as [[H1 [H2 Ha]]|[i0 [j0 [B1 [B2 [E1 [E2 [N1 [N2 Hb]]]]]]]]].
+      * subst first last. rewrite Z.eqb_refl. apply IH; try lia.
+        right. exists i, i. repeat split; try lia;
+          (destruct (Z.eq_dec t i) as [->|]; [lia|]; exfalso; apply H0; apply Ha; lia).
+      * destruct (first =? inv) eqn:Ef; [lia|]. apply IH; try lia.
+        right.
+        exists (if nthZ chunk i <? first then i else i0), (if nthZ chunk i >? last then i else j0).
+        destruct (nthZ chunk i <? first) eqn:Elo; destruct (nthZ chunk i >? last) eqn:Ehi;
+          repeat split; try lia;
+          (destruct (Z.eq_dec t i) as [->|]; [lia|]; pose proof (Hb t ltac:(lia) H0); lia).
+Qed.
+
+(* the two outcomes of the repaired get_valid_value_extents *)
+Lemma gve2_spec chunk s e inv :
+  0 <= s -> s <= e -> e <= len chunk ->
+  (all_inv chunk inv s e /\ get_valid_value_extents2 chunk s e inv = Ok (inv, inv)) \/
+  (exists i0 j0, s <= i0 < e /\ s <= j0 < e /\ nthZ chunk i0 <> inv /\ nthZ chunk j0 <> inv /\
+      (forall t, s <= t < e -> nthZ chunk t <> inv -> nthZ chunk i0 <= nthZ chunk t <= nthZ chunk j0) /\
+      get_valid_value_extents2 chunk s e inv = Ok (nthZ chunk i0, nthZ chunk j0)).
+Proof.
+  intros Hs Hse He. unfold get_valid_value_extents2.
+  destruct (gve2_loop_spec chunk inv s (Z.to_nat (e - s)) s inv inv) as [f [l [Hr St]]]; try lia.
+  { left. split; [reflexivity|]. split; [reflexivity|]. intros t Ht. lia. }
+  replace (s + Z.of_nat (Z.to_nat (e - s))) with e in St by lia.
+  destruct St as [[H1 [H2 Ha]]|[i0 [j0 [B1 [B2 [E1 [E2 [N1 [N2 Hb]]]]]]]]].
+  - left. subst f l. split; [exact Ha|exact Hr].
+  - right. exists i0, j0. subst f l. repeat split; try lia; try assumption; apply Hb; assumption.
+Qed.
+
+(* ---------- in-range maps (no order required) on slices ---------- *)
+Definition in_range_map (n inv:Z) (m:list Z) : Prop :=
+  forall i, 0 <= i < len m -> nthZ m i <> inv -> 0 <= nthZ m i < n.
+
+Lemma valid_map_in_range n inv m : valid_map n inv m -> in_range_map n inv m.
+Proof. intros [H _]. exact H. Qed.
+
+Lemma in_range_map_slice n inv m a b :
+  0 <= a -> a <= b -> b <= len m -> in_range_map n inv m -> in_range_map n inv (slice m a b).
+Proof.
+  intros Ha Hab Hb Hr i Hi Hne. rewrite len_slice in Hi by lia. unfold nthZ in *.
+  rewrite nthd_slice in * by lia. apply Hr; [lia|exact Hne].
 Qed.
 
 (* ---------- valid_map on slices ---------- *)
